@@ -88,11 +88,33 @@ def generate(tmp, kind, n, st, num, maxlen, seed_off):
 
 def replay(path, leg, src, bl, free, tmp, timeout=1500):
     args = [path, "--leg", leg, "--src", src, "--bl", bl, "--scratch", tmp] + (["--free"] if free else [])
-    rc, out, err = vlib.run_bin(BIN, args, timeout=timeout, env={"HBP_WATCHDOG_MS": os.environ.get("HBP_WATCHDOG_MS", "20000")})
-    lines = vlib.jsonl(out)
+    rc, out, err = vlib.run_bin(BIN, args, timeout=timeout, check=False,
+                                env={"HBP_WATCHDOG_MS": os.environ.get("HBP_WATCHDOG_MS", "20000")})
+    lines = []
+    for l in out.splitlines():
+        try:
+            lines.append(json.loads(l))
+        except ValueError:
+            pass            # a line cut off by the death of the process
     summ = [l for l in lines if l.get("type") == "summary"]
     if not summ:
-        raise vlib.ToolError("%s produced no summary (%s)\n%s" % (BIN, " ".join(map(str, args)), err[-2000:]))
+        # the process died inside the code under test (abort on heap corruption, segfault): that is data
+        idx = max([l["i"] for l in lines if l.get("type") == "case"], default=None)
+        if idx is None or rc == 0:
+            raise vlib.ToolError("%s produced no summary (%s) rc=%s\n%s" % (BIN, " ".join(map(str, args)), rc, err[-2000:]))
+        with open(path) as f:
+            case = [json.loads(x) for x in f][idx]
+        sig = {"what": "process-crash", "leg": leg, "kind": case.get("kind"), "mode": "free" if free else "exact"}
+        crash = {"type": "panic", "sig": sig, "case": case, "step": 0,
+                 "desc": "the process died (rc=%s) while replaying program %d: %s" % (rc, idx, err.strip()[-300:])}
+        lines.append(crash)
+        probs = {}
+        for l in lines:
+            if l.get("type") in ("contract", "panic", "mismatch", "hang"):
+                k = (l["type"], json.dumps(l["sig"], sort_keys=True))
+                probs[k] = probs.get(k, 0) + 1
+        summ = [{"type": "summary", "cases": idx, "steps": 0, "observations": 1, "aborted": True,
+                 "problems": [{"type": t, "sig": json.loads(s_), "count": c} for (t, s_), c in probs.items()]}]
     details = {}
     for l in lines:
         if l.get("type") in ("contract", "panic", "mismatch", "hang"):
